@@ -1,5 +1,6 @@
 import Driver.Util
 import RxnModel.Model.Timers
+import Driver.C11
 /-!
 Driver section for C10. Header: `M C10 <kgc> <start> <stop> <cacheBytes> <runners>`.
 Runs `Timers.Registry` (the definitions the theorems of Props/C10.lean are about).
@@ -91,6 +92,10 @@ def step (st : St) : List String → St × String
 
 def handle (lines : Array String) (i : Nat) (out : Array String) : Nat × Array String :=
   let hdr := if i = 0 then [] else words (lines.getD (i - 1) "")
-  runLines step (initSt hdr) lines i out
+  match hdr with
+  | "M" :: _ :: "op" :: rest =>
+    -- operator mode: the operator event loop `Timers.Op` (shared with C11's driver section)
+    runLines Driver.C11.stepOp (Driver.C11.initSt ("M" :: "C11" :: rest)) lines i out
+  | _ => runLines step (initSt hdr) lines i out
 
 end Driver.C10
